@@ -406,3 +406,90 @@ Proof.
   - intros i. exact (merge_same_projection a b l1 l2 i Hd H1 H2).
   - intros op Hin _. apply (merge_In _ _ _ op H1). apply (merge_In _ _ _ op H2). exact Hin.
 Qed.
+
+(* the frame property from the empty world, in terms of the model's own [run_ops] *)
+Lemma frame_run_ops ops w r i :
+  run_tagged w ops = Some r ->
+  run_ops w (filter (on_file i) ops) = Some (obs_of i (snd r)).
+Proof.
+  intros Hr. destruct (run_frame i ops w w r eq_refl Hr) as [ri [Hri [Ho _]]].
+  rewrite run_ops_tagged, Hri. cbn [omap option_map]. rewrite Ho. reflexivity.
+Qed.
+
+Lemma run_tagged_total ops w : run_ops w ops <> None <-> run_tagged w ops <> None.
+Proof. rewrite run_ops_tagged. destruct (run_tagged w ops); cbn; split; intros H; first [exact H | discriminate | contradiction]. Qed.
+
+(* a checkable form of files_disjoint *)
+Definition files_disjointb (a b : list sexp) : bool :=
+  forallb (fun x => forallb (fun y =>
+    match op_file x, op_file y with Some i, Some j => negb (i =? j) | _, _ => true end) b) a.
+
+Lemma files_disjointb_ok a b : files_disjointb a b = true -> files_disjoint a b.
+Proof.
+  intros H x y i Hx Hy Ex Ey. unfold files_disjointb in H.
+  rewrite forallb_forall in H. specialize (H x Hx). rewrite forallb_forall in H. specialize (H y Hy).
+  rewrite Ex, Ey, N.eqb_refl in H. discriminate H.
+Qed.
+
+(* ---- a tree shared by two Files ---- *)
+Definition op_rcode (fe sc swf : sexp) : sexp := SList [Atom (S "rcode"); fe; sc; swf].
+
+Lemma step_rcode w i f fe sc swf c wf :
+  atom_N fe = Some i -> wget w i = Some f -> dcode sc = Some c -> atom_bool swf = Some wf ->
+  step w (op_rcode fe sc swf) =
+  Some (wset w i (fst (code_render_with_file id_fmt (fun _ => wf) c f)),
+        [print_outcome false (snd (code_render_with_file id_fmt (fun _ => wf) c f))]).
+Proof.
+  intros Hi Hf Hc Hwf. unfold op_rcode, step.
+  repeat match goal with
+  | |- context [str_eqb (S ?a) (S ?b)] =>
+    let v := eval vm_compute in (str_eqb (S a) (S b)) in change (str_eqb (S a) (S b)) with v; cbv iota
+  end.
+  unfold with_file, obind. rewrite Hi, Hf, Hc, Hwf. reflexivity.
+Qed.
+
+Lemma op_file_rcode fe sc swf : op_file (op_rcode fe sc swf) = atom_N fe.
+Proof. reflexivity. Qed.
+
+(* The same tree rendered with File A and then with File B (A <> B): each render is the
+   function [code_render_with_file] of the tree and of THAT File's state before the history;
+   nothing of A's render reaches B's. *)
+Lemma shared_code_two_files w A B fA fB feA feB sc c swA swB wfA wfB :
+  A <> B -> atom_N feA = Some A -> atom_N feB = Some B ->
+  wget w A = Some fA -> wget w B = Some fB ->
+  dcode sc = Some c -> atom_bool swA = Some wfA -> atom_bool swB = Some wfB ->
+  exists r, run_tagged w [op_rcode feA sc swA; op_rcode feB sc swB] = Some r /\
+    obs_of A (snd r) = [print_outcome false (snd (code_render_with_file id_fmt (fun _ => wfA) c fA))] /\
+    obs_of B (snd r) = [print_outcome false (snd (code_render_with_file id_fmt (fun _ => wfB) c fB))] /\
+    wget (fst r) A = Some (fst (code_render_with_file id_fmt (fun _ => wfA) c fA)) /\
+    wget (fst r) B = Some (fst (code_render_with_file id_fmt (fun _ => wfB) c fB)).
+Proof.
+  intros Hne HA HB HfA HfB Hc HwA HwB.
+  cbn [run_tagged]. rewrite (step_rcode w A fA feA sc swA c wfA HA HfA Hc HwA).
+  set (rA := code_render_with_file id_fmt (fun _ => wfA) c fA).
+  assert (HfB' : wget (wset w A (fst rA)) B = Some fB).
+  { rewrite wget_wset_other; [exact HfB | intros ->; apply Hne; reflexivity]. }
+  rewrite (step_rcode _ B fB feB sc swB c wfB HB HfB' Hc HwB).
+  set (rB := code_render_with_file id_fmt (fun _ => wfB) c fB).
+  eexists. split; [reflexivity|]. cbn [omap option_map fst snd].
+  rewrite !op_file_rcode, HA, HB.
+  unfold obs_of. cbn [filter tag_is fst snd]. rewrite !N.eqb_refl.
+  assert (EAB : (A =? B) = false) by (apply N.eqb_neq; exact Hne).
+  assert (EBA : (B =? A) = false) by (apply N.eqb_neq; intros ->; apply Hne; reflexivity).
+  rewrite EAB, EBA. cbn [flat_map snd app].
+  repeat split.
+  - rewrite wget_wset_other; [apply wget_wset_same | exact Hne].
+  - apply wget_wset_same.
+Qed.
+
+(* The text a tree renders to with a File depends on that File's path, prefix, hints and
+   import table only. *)
+Lemma render_with_file_own_settings fmt wf c f1 f2 :
+  file_cfg f1 = file_cfg f2 -> f_imports f1 = f_imports f2 ->
+  snd (code_render_with_file fmt wf c f1) = snd (code_render_with_file fmt wf c f2) /\
+  f_imports (fst (code_render_with_file fmt wf c f1)) = f_imports (fst (code_render_with_file fmt wf c f2)).
+Proof.
+  intros Hc Hi. unfold code_render_with_file. rewrite Hc, Hi.
+  destruct (render (file_cfg f2) false (f_imports f2) c) as [[t raw]|m]; cbn [fst snd]; split; try reflexivity.
+  exact Hi.
+Qed.
